@@ -126,9 +126,26 @@ CpsTrueFor(p, t) ==
     /\ \A i \in 1..Len(CpVals(pf[p].cps)) : CpVals(pf[p].cps)[i] = AncAt(world, t, (CpStart(pf[p].cps) + i - 1) * Interval)
     /\ \A i \in 1..Len(cpFinal) : cpFinal[i] = AncAt(world, t, (i - 1) * Interval)
 
+\* Bounded liveness ("sync resumes", "after sync has caught up", "continued syncing converges"): the driver has
+\* just run its convergence phase -- every peer honest, connected and at its leaf, more rounds of complete
+\* traffic than there are blocks, no ban, no abort (a.must).  The rounds take no time: the world is finite, so
+\* the peers cannot keep announcing new blocks, and with time passing a peer whose last state stays the same
+\* is (rightly) disconnected and cannot be proven again by a client that already stores the final tip.
+\* SyncResumes: if a quorum of peers is proven at the stored tip (so that filter hashes can be agreed on) and the
+\*   final check points are those of its chain, nothing is pending and every block up to the tip is filtered.
+\* TipFollows (a.mustTip: the scripted fork scenario, all peers move to a higher and heavier branch together):
+\*   the stored tip is a heaviest announced one.
+PipelineDone == mdb = <<>> /\ mmem = {} /\ (scripts = {} \/ minF = Num(world, tip))
+CpFinalTrue == \A i \in 1..Len(cpFinal) : cpFinal[i] = AncAt(world, tip, (i - 1) * Interval)
+ProvenAtTip == {p \in PeerNames : HasProof(peer[p]) /\ peer[p].proved = tip}
+SyncResumes == (Cardinality(ProvenAtTip) >= Required /\ CpFinalTrue /\ ~Tainted) => PipelineDone
+TipFollows(tips) == \A t \in tips : TrueTd(world, t) <= TrueTd(world, tip)
+
 QuiescentEv(a) ==
     /\ UNCHANGED psCore /\ PipeUnchanged
     /\ ((Quiet /\ ~Tainted) => Complete)
+    /\ ("must" \in DOMAIN a /\ a.must) => SyncResumes
+    /\ ("mustTip" \in DOMAIN a /\ a.mustTip) => TipFollows(ToSet(a.tips))
 
 Step(r) ==
     CASE r.ev = "Connect"    -> Connect(r.a.p) /\ PipeUnchangedNoFetch /\ TimeoutPeers({r.a.p})
